@@ -65,7 +65,7 @@ def run(ck):
     ck.cov["rule"] = ("generated semicolon-terminated scripts (file-scope declarations, 1-4 functions built from 24 statement shapes: "
                       "declaration lists, object literals with explicit and shorthand keys sharing names with locals, destructuring, closures, "
                       "optional chaining, template/regex/string literals, comments, loops, switch, try) + regression corpus + probes of the recorded "
-                      "findings + every shipped dashboard .js file (whole for the oracles, windows for the model tie). "
+                      "findings + every shipped dashboard .js file (whole for the oracles, random windows for the model tie). "
                       "distinct_nontrivial = distinct scripts in which the real renameLocals changed at least one token")
     ck.assume("node 20 decides 'valid JavaScript' and 'same observable results' (console.log lines, thrown error name)",
               "the order in which Go iterates the locals map is a parameter of the model: theorems hold for every order")
@@ -253,8 +253,6 @@ def run(ck):
     tie = [(("script", s.encode()), o) for (k, s, f), o in zip(scripts, o_scripts)]
     tie += [(("window " + nm, w), o) for (nm, w), o in zip(windows, o_windows)]
     tie += [(("malformed", m.encode()), o) for m, o in zip(malformed, o_mal)]
-    if not quick:
-        tie += [((nm, d), o) for (nm, d), o in zip(shipped, o_shipped) if len(d) < 45000]
     lines = ["From JsMin Require Import Model.", "Open Scope N_scope.",
              "Definition pr (l : list (str * str)) := l.",
              "Definition cases : list (str * (nat * list (str * str)) * (nat * list (str * str)) * list N) := ["]
@@ -285,8 +283,8 @@ def run(ck):
         def vobs(ob):
             return "(%d%%nat, pr [%s])" % (ob[1], ";".join("(%s,%s)" % (vbytes(k), vbytes(v)) for k, v in ob[0]))
         rows.append("(%s, %s, %s, %s)" % (vbytes(src), vobs(ob2), vobs(ob1), vf.vN(h)))
-    lines.append(";\n".join(rows))
-    lines.append("""].
+    head = list(lines)
+    tail = ["""].
 Definition hs (s : str) := hash_str 3 s.
 Definition chk (c : str * (nat * list (str * str)) * (nat * list (str * str)) * list N) : list N :=
   let '(src, ob2, ob1, h) := c in
@@ -308,12 +306,18 @@ Definition chk (c : str * (nat * list (str * str)) * (nat * list (str * str)) * 
   flat_map (fun i => if nth i got 0 =? nth i h 0 then [] else [N.of_nat i]) (seq 0 7).
 Fixpoint idx (i : N) (l : list (str * (nat * list (str * str)) * (nat * list (str * str)) * list N)) : list N :=
   match l with [] => [] | c :: r => match chk c with [] => [] | 99 :: _ => [i * 100 + 99] | e :: _ => [i * 100 + e] end ++ idx (i + 1) r end.
-""")
-    ok, r = vf.coq_eval(GROUP, ck.work, "cases", "\n".join(lines), {"BAD": "idx 0 cases"}, timeout=1500)
+"""]
+    bad_codes = []
+    CH = 100
+    for c0 in range(0, len(rows), CH):
+        text = "\n".join(head + [";\n".join(rows[c0:c0 + CH])] + tail)
+        ok, r = vf.coq_eval(GROUP, ck.work, "cases%d" % c0, text, {"BAD": "idx %d cases" % c0}, timeout=1500)
+        if not ok:
+            ck.violation("correspondence-eval", "model evaluation failed:\n" + r[-1500:], replay={"log": r[-3000:]}, found_input=False)
+            return
+        bad_codes += r["BAD"]
     ck.notes.append("t_coq_eval=%.1fs" % (time.time() - ck.t0))
-    if not ok:
-        ck.violation("correspondence-eval", "model evaluation failed:\n" + r[-1500:], replay={"log": r[-3000:]}, found_input=False)
-        return
+    r = {"BAD": bad_codes}
     stage = {0: "tokenize", 1: "collectLocals.locals", 2: "collectLocals.fileScope", 3: "renameLocals", 4: "Minify(src,false)",
              5: "emit(renameLocals)", 6: "Minify(src,true)", 7: "rename order is not a permutation of the model's renamable set"}
     outside = 0
